@@ -170,7 +170,11 @@ pub fn eval_constant(egraph: &EGraph, enode: &Expr) -> ConstValue {
 
 /// Union `id` with a new constant node if it's constant.
 pub fn union_constant(egraph: &mut EGraph, id: Id) {
-    if let Some(val) = &egraph[id].data.constant {
+    // (a NULL result is not substituted: the constant `null` has no type, the expression has one —
+    // `select 1 / 0` must stay an INT column)
+    if let Some(val) = &egraph[id].data.constant
+        && !val.is_null()
+    {
         let added = egraph.add(Expr::Constant(val.clone()));
         egraph.union(id, added);
         // prune other nodes
